@@ -700,7 +700,31 @@ def map_law(case: dict, env: List[dict], real: dict) -> List[str]:
             if calls or type(r2) is not Invalid or r2.err_type is not r.err_type or r2.value is not r.value \
                     or r2.validator is not r.validator:
                 out.append(f"{m}: Invalid.map does not leave the Invalid untouched")
+        if type(r) is Valid:
+            # … also when f's result compares equal to the payload (an equal value of another type, a rebuilt copy)
+            try:
+                r3 = r.map(_EqualToAnything)
+                if type(r3) is not Valid or type(r3.val) is not _EqualToAnything or r3.val.a is not r.val:
+                    out.append(f"{m}: Valid.map(f) does not carry f(payload) when f(payload) == payload")
+            except BaseException as e:  # noqa
+                out.append(f"{m}: result.map raised {type(e).__name__}")
     return out
+
+
+class _EqualToAnything:
+    """what a mapped function may return: a value that compares equal to its argument without being it"""
+
+    def __init__(self, a: Any) -> None:
+        self.a = a
+
+    def __eq__(self, other: Any) -> bool:
+        return True
+
+    def __ne__(self, other: Any) -> bool:
+        return False
+
+    def __hash__(self) -> int:
+        return 0
 
 
 def oracle_C05(case: dict, real: dict, model: dict) -> List[str]:
